@@ -229,6 +229,25 @@ def extra(uni, tier, seed):
                      f"{n_ok} dependency shapes declared in a valid order",
                      kind="bounded run-time contract: 4 dependency shapes, "
                           "table in reverse order", count=n_ok, bounded=True))
+    # BOUNDED: renaming a symbol that a code block refers to (every
+    # capitalisation): refused, or the written routine compiles under
+    # implicit none
+    n_ok = 0
+    for cid, ok, detail, src in R.rename_cases():
+        if ok:
+            n_ok += 1
+            continue
+        out.append(Extra(
+            f"bounded#rename-with-code-block[{cid}]", False, detail[:300],
+            bounded=True, kind="bounded run-time contract: written routine "
+            "compiled with gfortran -fimplicit-none",
+            replay={"confirmed": True, "input": {"source": src},
+                    "observed": detail}))
+    out.append(Extra("bounded#rename-with-code-block", True,
+                     f"{n_ok} renamings refused or still compiling",
+                     kind="bounded run-time contract: 9 capitalisation "
+                          "combinations of declaration and code-block use",
+                     count=n_ok, bounded=True))
     return out
 
 
